@@ -584,6 +584,11 @@ func VH22i_inproc_listener_gone() {
 	verif.Assert(verif.LiveGoroutines() == 0, "C10/inproc/goroutines-left-after-close")
 }
 
+// setsHeader: cooked patterns whose Send builds the protocol header itself (PAIR, PUSH and PUB have none: there
+// the documented rule "applications do not touch Header in cooked mode" is all there is, and a header left in a
+// forwarded message goes out in front of the body - outside the claim)
+var setsHeader = map[string]bool{"req": true, "surveyor": true, "pair1": true, "bus": true, "star": true}
+
 // VH22j_longrun: R rounds (12; thorough 24) over two real sockets on the real
 // inproc transport, for every pattern pairing. From the second round on the
 // application does not allocate: it SENDS THE MESSAGE OBJECT IT RECEIVED in the
@@ -621,6 +626,11 @@ func VH22j_longrun() {
 		if raw && (pr.tx == "xpair" || pr.tx == "xpush" || pr.tx == "xpub") {
 			m.Header = m.Header[:0]
 		}
+		if setsHeader[pr.tx] && i%3 == 2 {
+			// a cooked socket sets the protocol header itself: whatever header a forwarded message still carries
+			// (here: four stale bytes) must not reach the wire
+			m.Header = append(m.Header[:0], 0x7f, byte(i), 0x33, 0x44)
+		}
 		var serr error
 		sg := verif.Go("send", func() { serr = tx.SendMsg(m) })
 		verif.Quiesce()
@@ -644,6 +654,9 @@ func VH22j_longrun() {
 		// answer with the request object itself
 		rb := []byte{byte(0x80 | i), verif.Byte("reply")}
 		got.Body = append(got.Body[:0], rb...)
+		if i%3 == 1 {
+			got.Header = append(got.Header[:0], 0x80, 0, byte(i), 0x55) // a stale id, as a reply taken from a REQ socket carries
+		}
 		var aerr error
 		ag := verif.Go("answer", func() { aerr = rx.SendMsg(got) })
 		verif.Quiesce()
